@@ -88,7 +88,7 @@ PT(t, i, ls, cur, wl) ==
        ELSE IF Len(cur) >= 63 \/ wl + 1 >= 255 THEN [ok |-> FALSE] ELSE PT(t, i + 2, ls, Append(cur, t[i + 1]), wl + 1)
     ELSE IF c = 46 THEN
        IF cur = <<>> THEN [ok |-> FALSE]
-       ELSE IF wl + 1 >= 255 THEN [ok |-> FALSE]
+       ELSE IF wl + 1 > 255 THEN [ok |-> FALSE]
        ELSE PT(t, i + 1, Append(ls, cur), <<>>, wl + 1)
     ELSE IF c >= 128 THEN [ok |-> FALSE]
     ELSE IF Len(cur) >= 63 \/ wl + 1 >= 255 THEN [ok |-> FALSE] ELSE PT(t, i + 1, ls, Append(cur, c), wl + 1)
